@@ -47,10 +47,33 @@ def build_replay(repo, work):
     return _built[key]
 
 
+_cli = {}
+
+
+def build_cli(repo):
+    """The warcraft-rs binary of the tree under test (C11 end-to-end oracle only; several minutes cold, cached afterwards)."""
+    if repo in _cli:
+        return _cli[repo]
+    env = dict(os.environ)
+    env['CARGO_NET_OFFLINE'] = 'true'
+    tgt = os.path.join(krun.WORK, '_cli_target')
+    env['CARGO_TARGET_DIR'] = tgt
+    env.pop('RUSTUP_TOOLCHAIN', None)
+    p = subprocess.run(['cargo', 'build', '--offline', '-q', '-p', 'warcraft-rs', '--bin', 'warcraft-rs'], cwd=repo, env=env, capture_output=True, text=True)
+    b = os.path.join(tgt, 'debug', 'warcraft-rs')
+    _cli[repo] = b if p.returncode == 0 and os.path.exists(b) else None
+    return _cli[repo]
+
+
 def run_oracle(oracle, seed, repo, work, args=(), timeout=300):
     binp, err = build_replay(repo, work)
     if not binp:
         return {'oracle': oracle, 'error': 'replay crate did not build against the tree under test: ' + err}
+    if oracle == 'cli_extract' and not args:
+        cli = build_cli(repo)
+        if not cli:
+            return {'oracle': oracle, 'error': 'the warcraft-rs binary of the tree under test did not build'}
+        args = (cli,)
     try:
         p = subprocess.run([binp, oracle, str(seed)] + list(args), capture_output=True, text=True, timeout=timeout)
     except subprocess.TimeoutExpired:
